@@ -171,6 +171,26 @@ def build_traces(path, tier, seed):
             warnings.simplefilter("ignore")
             pre, post = av.calc_step_fn_steps_vals(v, ind=(ind if i % 2 else np.int64(ind)))
         add({"kind": "levels", "v": enc_seq(v), "ind": ind, "pre": enc(pre if ind > 0 else 0.0), "post": enc(post if ind < n - 1 else 0.0)}, {"kind": "levels", "n": n, "ind": ind})
+    # default split (ind=None: the best-fit split of the pow=1 error) asked for right after the error of ANOTHER series with the same
+    # length, first and last sample was computed (the two series print identically under coarse numpy print options)
+    for j in range(6 if tier == "quick" else 40):
+        n = int(rng.integers(7, 300))
+        v = np.concatenate([rng.standard_normal(n // 2) + float(rng.uniform(1, 4)), rng.standard_normal(n - n // 2) - float(rng.uniform(1, 4))])
+        if j % 2:
+            v = v[::-1].copy()
+        other = v.copy()
+        cut = int(rng.integers(1, n - 1))
+        other[1:-1] = np.concatenate([np.full(cut, 5.0), np.full(n - 1 - cut, -5.0)])[: n - 2] + 0.1 * rng.standard_normal(n - 2)
+        with warnings.catch_warnings():
+            warnings.simplefilter("ignore")
+            err = np.asarray(av.calc_step_fn_vals_error(np.array(v)), dtype=float)
+            ind0 = int(np.argmin(err))
+            av.calc_step_fn_vals_error(other)
+            pre, post = av.calc_step_fn_steps_vals(v)
+        add({"kind": "steperr", "v": enc_seq(v), "pow": 1, "out": enc_seq(err)}, {"kind": "steperr", "n": n, "pow": 1, "shape": "two-level", "mean": float(np.mean(v))})
+        if 0 < ind0 < n - 1:
+            add({"kind": "levels", "v": enc_seq(v), "ind": ind0, "pre": enc(pre), "post": enc(post)},
+                {"kind": "levels", "n": n, "ind": ind0, "default_split": True, "history": "error of another series with the same ends computed just before"})
     # design spectra
     g = 9.81
     bounds = {"C": [0.1, 0.3, 1.5, 3.0], "D": [0.1, 0.56, 1.5, 3.0], "E": [0.1, 1.0, 1.5, 3.0]}
